@@ -305,7 +305,7 @@ func c12Snapshot(api string, r c12Read, ents map[string]*c12Ent, all []*c12Ent) 
 		return nil
 	}
 	if last != nil && last.defB <= r.t0 && last.defE >= r.t1 {
-		return verifkit.Violationf("list-missing-entry:"+api, "%s (call window %d..%d) does not contain %q which was registered during the whole call (%d..%d)", api, r.t0, r.t1, last.name, last.defB, last.defE)
+		return verifkit.Violationf("list-missing-entry:"+api, "%s (call window %d..%d) does not contain %q which was registered during the whole call (%d..%d) %s", api, r.t0, r.t1, last.name, last.defB, last.defE, last.dbg)
 	}
 	return verifkit.Violationf("list-mixed-moments:"+api, "%s (call window %d..%d, %d entries) matches the registered set at no moment of the call: at every stamp some registered entity is missing (e.g. %q registered %d..%d)", api, r.t0, r.t1, len(r.names), last.name, last.defB, last.defE)
 }
@@ -656,7 +656,9 @@ func c12Run(c c12Case) (res verifkit.Result) {
 		// (2) "definitely registered" is cut at the start of any DisconnectAll that
 		// overlaps it.
 		for _, k := range kills {
-			if k.d1 >= e.defB && k.d0 <= e.defE {
+			// a DisconnectAll that overlaps the join call itself (d1 >= inB) may have
+			// caught the player between registration and the return of the join
+			if k.d1 >= e.inB && k.d0 <= e.defE {
 				if k.d0 <= e.defB {
 					e.defB, e.defE = 1, 0 // may have been kicked right away: never definitely registered
 				} else {
